@@ -19,6 +19,8 @@ control features — NOT `fun _ => true`, which no real rule satisfies for rows 
 `S := fun r => r.c == some c0` inside a stratum).
 -/
 import FairModel.Lemmas.CrossFrame
+import FairModel.Lemmas.CrossError
+import FairModel.Lemmas.CrossStrings
 
 namespace C06
 open Moments Cross Fairness Frame MetricPool XR Aggregate
@@ -551,5 +553,556 @@ example : (∃ D, eodds "equalized_odds_difference" .toOverall .worstCase 1 (toF
 example : GammaLe (eventOf .tpr) xRows 1 defaultUtil xH (1/4) ∧
     named "equal_opportunity_difference" .between 1 (toFrame (fun r => r.c == none) xRows xH) = some (.value (fin (1/2))) := by
   decide +kernel
+
+/-! ## Work package L3: ErrorRateParity, ratio bounds for TPR / FPR / EO, EqualizedOdds inside a control stratum
+
+### (5) affine dictionaries: ErrorRateParity ↔ `zero_one_loss_difference` / `accuracy_score_difference` -/
+
+/-- `spec` on the frame reads off `a·(mean of the utility) + b` of event `e` (`Dict` is `a = 1`, `b = 0`, default
+    utilities; accuracy under ErrorRateParity is `a = −1`, `b = 1`) -/
+structure DictA (ev : Ev) (rows : List Row) (ut : Util) (h : List Rat) (e : String) (a b : Rat)
+    (spec : List Dat → Rat) (frows : List (Frame.Row Dat)) : Prop where
+  grp : ∀ r' ∈ frows, ∃ g, Observed ev rows e g ∧ spec (groupOf frows r') = a * mEG ev rows ut h e g + b
+  all : spec (slice frows) = a * mE ev rows ut h e + b
+
+theorem Dict.toDictA {ev : Ev} {rows : List Row} {h : List Rat} {e : String} {spec : List Dat → Rat}
+    {frows : List (Frame.Row Dat)} (hd : Dict ev rows h e spec frows) :
+    DictA ev rows defaultUtil h e 1 0 spec frows :=
+  ⟨fun r' hr' => by obtain ⟨g, ho, hv⟩ := hd.grp r' hr'; exact ⟨g, ho, by rw [hv]; ring⟩, by rw [hd.all]; ring⟩
+
+/-- `difference_le_of_constraint` for any utilities and any affine reading with `|a| ≤ 1` -/
+theorem difference_le_of_constraint_affine {ev : Ev} {rows : List Row} {ut : Util} {h : List Rat} {e : String}
+    {a b : Rat} {spec : List Dat → Rat} {frows : List (Frame.Row Dat)} {m : Metric}
+    (hv : C03.Valid 1 frows) (hf : FiniteOn (eval m) spec frows)
+    (hd : DictA ev rows ut h e a b spec frows) (ha : |a| ≤ 1) {eps : Rat} (hg : GammaLe ev rows 1 ut h eps) :
+    (∃ D, run m .difference .toOverall true 1 frows = .value (fin D) ∧ 0 ≤ D ∧ D ≤ eps) ∧
+    (∃ D, run m .difference .between true 1 frows = .value (fin D) ∧ 0 ≤ D ∧ D ≤ 2 * eps) := by
+  have key : ∀ x y c : Rat, |x - y| ≤ c → |a * x + b - (a * y + b)| ≤ c := by
+    intro x y c hxy
+    have e1 : a * x + b - (a * y + b) = a * (x - y) := by ring
+    rw [e1, abs_mul]
+    calc |a| * |x - y| ≤ 1 * |x - y| := mul_le_mul_of_nonneg_right ha (abs_nonneg _)
+      _ = |x - y| := one_mul _
+      _ ≤ c := hxy
+  constructor
+  · apply diff_overall_le hv hf
+    intro r hr
+    obtain ⟨g, hobs, hgv⟩ := hd.grp r hr
+    rw [hgv, hd.all]
+    exact key _ _ _ (abs_le_of_gammaLe hg hobs)
+  · apply diff_between_le hv hf
+    intro r hr r' hr'
+    obtain ⟨g, hobs, hgv⟩ := hd.grp r hr
+    obtain ⟨g', hobs', hgv'⟩ := hd.grp r' hr'
+    rw [hgv, hgv']
+    exact key _ _ _ (abs_pair_le_of_gammaLe hg hobs hobs')
+
+/-- `zero_one_loss` on the frame of the rows of event `e` IS the mean of the ErrorRateParity utility -/
+theorem zeroone_dict (ev : Ev) (rows : List Row) (h : List Rat) (e : String)
+    (hl : h.length = rows.length) (hy : ∀ r ∈ rows, r.y = 0 ∨ r.y = 1) (hh : Hard h) :
+    DictA ev rows erpUtil h e 1 0 zeroOneSpec (toFrame (inE ev e) rows h) := by
+  constructor
+  · intro r' hr'
+    obtain ⟨t, rfl, ht, hs⟩ := toFrame_group_mem hr'
+    refine ⟨t.1.g, observed_of_inE ht hs, ?_⟩
+    rw [groupOf_toFrame, zeroOneSpec_selDat _ rows h hl hy hh, one_mul, add_zero]
+    rfl
+  · rw [slice_toFrame, zeroOneSpec_selDat _ rows h hl hy hh, one_mul, add_zero]
+    rfl
+
+/-- `accuracy_score` on that frame is one minus it -/
+theorem accuracy_dict (ev : Ev) (rows : List Row) (h : List Rat) (e : String)
+    (hl : h.length = rows.length) (hy : ∀ r ∈ rows, r.y = 0 ∨ r.y = 1) (hh : Hard h)
+    (hne : ∃ g, Observed ev rows e g) :
+    DictA ev rows erpUtil h e (-1) 1 accuracySpec (toFrame (inE ev e) rows h) := by
+  constructor
+  · intro r' hr'
+    obtain ⟨t, rfl, ht, hs⟩ := toFrame_group_mem hr'
+    refine ⟨t.1.g, observed_of_inE ht hs, ?_⟩
+    have hne' : rows.filter (fun r => inE ev e r && (r.g == t.1.g)) ≠ [] :=
+      List.ne_nil_of_mem (List.mem_filter.mpr ⟨ht, by simp [hs]⟩)
+    rw [groupOf_toFrame, accuracySpec_selDat _ rows h hl hne', zeroOneSpec_selDat _ rows h hl hy hh]
+    show 1 - meanOn (inEG ev e t.1.g) rows (predOf erpUtil rows h) = _
+    unfold mEG; ring
+  · obtain ⟨g0, hg0⟩ := hne
+    have hne' : rows.filter (inE ev e) ≠ [] := List.ne_nil_of_length_pos (countE_pos ev rows e g0 hg0)
+    rw [slice_toFrame, accuracySpec_selDat _ rows h hl hne', zeroOneSpec_selDat _ rows h hl hy hh]
+    unfold mE; ring
+
+/-- the generated functions `accuracy_score_difference` / `zero_one_loss_difference` (read from the lifted
+    `METRICS_SPEC` through `C03.generated_family`) are the MetricFrame difference of their base metric -/
+theorem accuracy_score_difference_def (meth : Method) (nsf : Nat) (frows : List (Frame.Row Dat)) :
+    generated "accuracy_score_difference" meth nsf frows = some (some (run .accuracy .difference meth true nsf frows)) := by
+  obtain ⟨k, b, hk, hgen⟩ := C03.generated_family ("accuracy_score_difference", "accuracy_score", "difference")
+    (by decide +kernel) .accuracy (by decide +kernel) meth nsf frows
+  simp only [C03.variantSpec, Option.some.injEq, Prod.mk.injEq] at hk
+  obtain ⟨rfl, rfl⟩ := hk
+  exact hgen
+
+theorem zero_one_loss_difference_def (meth : Method) (nsf : Nat) (frows : List (Frame.Row Dat)) :
+    generated "zero_one_loss_difference" meth nsf frows = some (some (run .zeroOne .difference meth true nsf frows)) := by
+  obtain ⟨k, b, hk, hgen⟩ := C03.generated_family ("zero_one_loss_difference", "zero_one_loss", "difference")
+    (by decide +kernel) .zeroOne (by decide +kernel) meth nsf frows
+  simp only [C03.variantSpec, Option.some.injEq, Prod.mk.injEq] at hk
+  obtain ⟨rfl, rfl⟩ := hk
+  exact hgen
+
+/-- **ErrorRateParity(difference_bound = eps) satisfied ⇒ `accuracy_score_difference` and `zero_one_loss_difference`
+    are ≤ eps (to_overall) and ≤ 2·eps (between_groups)** — hard predictor, 0/1 labels, on the rows of event `e`
+    (`"all"`: every row; `"control=c,all"`: the rows of control stratum `c` — `erp_constraint_bounds`) -/
+theorem erp_difference_le_of_constraint (ev : Ev) (rows : List Row) (h : List Rat) (eps : Rat) (e : String)
+    (hl : h.length = rows.length) (hh : Hard h) (hy : ∀ r ∈ rows, r.y = 0 ∨ r.y = 1)
+    (hne : ∃ g, Observed ev rows e g) (hg : GammaLe ev rows 1 erpUtil h eps) :
+    ((∃ D, generated "accuracy_score_difference" .toOverall 1 (toFrame (inE ev e) rows h) = some (some (.value (fin D))) ∧
+        0 ≤ D ∧ D ≤ eps) ∧
+     (∃ D, generated "accuracy_score_difference" .between 1 (toFrame (inE ev e) rows h) = some (some (.value (fin D))) ∧
+        0 ≤ D ∧ D ≤ 2 * eps)) ∧
+    ((∃ D, generated "zero_one_loss_difference" .toOverall 1 (toFrame (inE ev e) rows h) = some (some (.value (fin D))) ∧
+        0 ≤ D ∧ D ≤ eps) ∧
+     (∃ D, generated "zero_one_loss_difference" .between 1 (toFrame (inE ev e) rows h) = some (some (.value (fin D))) ∧
+        0 ≤ D ∧ D ≤ 2 * eps)) := by
+  obtain ⟨g0, hg0⟩ := hne
+  have hne' : rows.filter (inE ev e) ≠ [] := List.ne_nil_of_length_pos (countE_pos ev rows e g0 hg0)
+  have hv := toFrame_valid (inE ev e) rows h hl hne'
+  have hb := toFrame_binary (inE ev e) rows h hy hh
+  have hA := difference_le_of_constraint_affine (m := .accuracy) hv
+    (C03.finiteOn_of_spec hv hb (rfl : C03.specOf .accuracy = some accuracySpec))
+    (accuracy_dict ev rows h e hl hy hh ⟨g0, hg0⟩) (by norm_num) hg
+  have hZ := difference_le_of_constraint_affine (m := .zeroOne) hv
+    (C03.finiteOn_of_spec hv hb (rfl : C03.specOf .zeroOne = some zeroOneSpec))
+    (zeroone_dict ev rows h e hl hy hh) (by norm_num) hg
+  simp only [accuracy_score_difference_def, zero_one_loss_difference_def]
+  exact ⟨⟨hA.1.imp fun D hD => ⟨congrArg (some ∘ some) hD.1, hD.2⟩, hA.2.imp fun D hD => ⟨congrArg (some ∘ some) hD.1, hD.2⟩⟩,
+    ⟨hZ.1.imp fun D hD => ⟨congrArg (some ∘ some) hD.1, hD.2⟩, hZ.2.imp fun D hD => ⟨congrArg (some ∘ some) hD.1, hD.2⟩⟩⟩
+
+/-- the selector of the real ErrorRateParity rule: event `"all"` = the rows without control value, event
+    `"control=c,all"` = the rows of stratum `c` (for ALL rows) -/
+def stratumEvent (c0 : Option String) (base : String) : String :=
+  match c0 with
+  | none => base
+  | some c => MomentsSrc.ctrlFormat c base
+
+theorem erp_event_selects (c0 : Option String) :
+    inE (eventOf .erp) (stratumEvent c0 MomentsSrc.allEvent) = fun r => r.c == c0 := by
+  funext r
+  rw [eventOf_erp_eq_dp]
+  cases c0 with
+  | none => exact dp_event_selects r
+  | some c => exact dp_event_selects_in_stratum r c
+
+/-- **the real rule**: `ErrorRateParity` with or without control features (`c0 = none`: no control features;
+    `c0 = some c`: inside stratum `c`) bounds the accuracy / zero-one-loss difference of the stratum's frame -/
+theorem erp_constraint_bounds (rows : List Row) (h : List Rat) (eps : Rat) (c0 : Option String)
+    (hl : h.length = rows.length) (hh : Hard h) (hy : ∀ r ∈ rows, r.y = 0 ∨ r.y = 1)
+    (hne : rows.filter (fun r => r.c == c0) ≠ [])
+    (hg : GammaLe (eventOf .erp) rows 1 erpUtil h eps) :
+    ((∃ D, generated "accuracy_score_difference" .toOverall 1 (toFrame (fun r => r.c == c0) rows h) = some (some (.value (fin D))) ∧
+        0 ≤ D ∧ D ≤ eps) ∧
+     (∃ D, generated "accuracy_score_difference" .between 1 (toFrame (fun r => r.c == c0) rows h) = some (some (.value (fin D))) ∧
+        0 ≤ D ∧ D ≤ 2 * eps)) ∧
+    ((∃ D, generated "zero_one_loss_difference" .toOverall 1 (toFrame (fun r => r.c == c0) rows h) = some (some (.value (fin D))) ∧
+        0 ≤ D ∧ D ≤ eps) ∧
+     (∃ D, generated "zero_one_loss_difference" .between 1 (toFrame (fun r => r.c == c0) rows h) = some (some (.value (fin D))) ∧
+        0 ≤ D ∧ D ≤ 2 * eps)) := by
+  obtain ⟨r0, hr0⟩ := List.exists_mem_of_ne_nil _ hne
+  obtain ⟨hr0m, hr0c⟩ := List.mem_filter.mp hr0
+  have hsel := erp_event_selects c0
+  have hobs : Observed (eventOf .erp) rows (stratumEvent c0 MomentsSrc.allEvent) r0.g := by
+    refine ⟨r0, hr0m, ?_, rfl⟩
+    have := congrFun hsel r0
+    simp only [inE, hr0c, beq_iff_eq] at this
+    exact this
+  have := erp_difference_le_of_constraint (eventOf .erp) rows h eps (stratumEvent c0 MomentsSrc.allEvent) hl hh hy
+    ⟨r0.g, hobs⟩ hg
+  rw [hsel] at this
+  exact this
+
+/-! ### (6) ratio bounds beyond demographic parity -/
+
+/-- every selected row occurs in the frame (with its own prediction) -/
+theorem mem_toFrame_of_mem {S : Row → Bool} {rows : List Row} {h : List Rat} (hl : h.length = rows.length)
+    {r : Row} (hr : r ∈ rows) (hs : S r = true) : ∃ p, frow (r, p) ∈ toFrame S rows h := by
+  obtain ⟨i, hi, hget⟩ := List.getElem_of_mem hr
+  have hi' : i < h.length := by omega
+  have hz : (r, h[i]) ∈ rows.zip h := by
+    rw [List.mem_iff_getElem]
+    exact ⟨i, by simp [hi, hi'], by simp [hget]⟩
+  exact ⟨h[i], List.mem_map.mpr ⟨(r, h[i]), List.mem_filter.mpr ⟨hz, hs⟩, rfl⟩⟩
+
+/-- a dictionary that also COVERS every observed group of the event (each has a row in the frame) -/
+def Covers (ev : Ev) (rows : List Row) (h : List Rat) (e : String) (spec : List Dat → Rat)
+    (frows : List (Frame.Row Dat)) : Prop :=
+  ∀ g, Observed ev rows e g → ∃ r' ∈ frows, spec (groupOf frows r') = mEG ev rows defaultUtil h e g
+
+theorem selrate_covers (ev : Ev) (rows : List Row) (h : List Rat) (e : String)
+    (hl : h.length = rows.length) (hh : Hard h) :
+    Covers ev rows h e selRateSpec (toFrame (inE ev e) rows h) := by
+  intro g ⟨r, hr, hre, hrg⟩
+  obtain ⟨p, hp⟩ := mem_toFrame_of_mem (S := inE ev e) (h := h) hl hr (by simp [inE, hre])
+  refine ⟨_, hp, ?_⟩
+  rw [groupOf_toFrame, selRateSpec_selDat _ rows h hl hh, mEG_default ev rows h e _ hl, ← hrg]
+  rfl
+
+theorem rate_covers (ev : Ev) (rows : List Row) (h : List Rat) (e : String) (S : Row → Bool) (c : Int)
+    (spec : List Dat → Rat)
+    (hspec : ∀ P : Row → Bool, spec (selDat P rows h) = meanOn (fun r => P r && (r.y == c)) rows h)
+    (hl : h.length = rows.length) (hS : ∀ r, inE ev e r = (S r && (r.y == c))) :
+    Covers ev rows h e spec (toFrame S rows h) := by
+  intro g ⟨r, hr, hre, hrg⟩
+  have hin : inE ev e r = true := by simp [inE, hre]
+  rw [hS] at hin
+  have hs : S r = true := by
+    cases hS' : S r
+    · rw [hS'] at hin; simp at hin
+    · rfl
+  obtain ⟨p, hp⟩ := mem_toFrame_of_mem (S := S) (h := h) hl hr hs
+  refine ⟨_, hp, ?_⟩
+  rw [groupOf_toFrame, hspec, mEG_default ev rows h e _ hl, ← hrg]
+  congr 1
+  funext r'
+  rw [inEG_eq, hS]
+  cases S r' <;> cases (r'.g == r.g) <;> cases (r'.y == c) <;> rfl
+
+section ratio
+variable {ev : Ev} {rows : List Row} {h : List Rat} {e : String} {spec : List Dat → Rat}
+  {frows : List (Frame.Row Dat)} {m : Metric}
+
+/-- **ratio constraint ⇒ MetricFrame ratio**, generic in the base metric: if `gamma ≤ eps` holds with
+    `ratio_bound = r ∈ (0,1]`, `eps ≥ 0`, the predictions are non-negative and the event mean `μ` is positive, then
+      `ratio(method="between_groups") ≥ r·(r·μ − eps)/(μ + eps)`,
+      `ratio(method="to_overall")    ≥ (r·μ − eps)/μ`  -/
+theorem ratio_ge_of_constraint (hv : C03.Valid 1 frows) (hf : FiniteOn (eval m) spec frows)
+    (hd : Dict ev rows h e spec frows) (hc : Covers ev rows h e spec frows)
+    (hl : h.length = rows.length) (hnn : ∀ x ∈ h, 0 ≤ x)
+    {ratio eps : Rat} (hr : 0 < ratio) (hr1 : ratio ≤ 1) (he : 0 ≤ eps)
+    (hm : 0 < mE ev rows defaultUtil h e)
+    (hg : GammaLe ev rows ratio defaultUtil h eps) :
+    (∃ ρ, run m .ratio .between true 1 frows = .value (fin ρ) ∧
+      ratio * (ratio * mE ev rows defaultUtil h e - eps) / (mE ev rows defaultUtil h e + eps) ≤ ρ) ∧
+    (∃ ρ, run m .ratio .toOverall true 1 frows = .value (fin ρ) ∧
+      (ratio * mE ev rows defaultUtil h e - eps) / mE ev rows defaultUtil h e ≤ ρ) := by
+  set μ := mE ev rows defaultUtil h e with hμ
+  obtain ⟨r0, hr0⟩ := List.exists_mem_of_ne_nil _ hv.ne
+  obtain ⟨g0, hg0, _⟩ := hd.grp r0 hr0
+  constructor
+  · obtain ⟨mn, mx, ⟨⟨r1, hr1', e1⟩, _⟩, ⟨⟨r2, hr2, e2⟩, hmx⟩, h3⟩ := C03.ratio_between_spec hv hf
+    obtain ⟨g1, ho1, hv1⟩ := hd.grp r1 hr1'
+    obtain ⟨g2, ho2, hv2⟩ := hd.grp r2 hr2
+    have hmn0 : 0 ≤ mn := by
+      rw [e1, hv1, mEG_default ev rows h e g1 hl]
+      exact meanOn_nonneg _ rows h hnn
+    have w1 := (ratio_window hr hg ho1).1
+    have w2 := (ratio_window hr hg ho2).2
+    rw [← hv1, ← e1] at w1
+    rw [← hv2, ← e2] at w2
+    have hmle : μ ≤ mx := by
+      have := (mE_between ev rows h e 0 mx (fun g hobs => by
+        refine ⟨meanOn_nonneg _ rows h hnn, ?_⟩
+        obtain ⟨r', hr', hs⟩ := hc g hobs
+        have := hmx r' hr'
+        rw [hs, mEG_default ev rows h e g hl] at this
+        exact this) ⟨g0, hg0⟩).2
+      rw [hμ, mE_default ev rows h e hl]; exact this
+    have hmx0 : 0 < mx := lt_of_lt_of_le hm hmle
+    refine ⟨mn / mx, ?_, ratio_between_lower hr (by linarith) hmx0 hmn0 w1 w2⟩
+    rw [h3, div_fin_fin, if_neg (ne_of_gt hmx0)]
+  · have ho : spec (slice frows) ≠ 0 := by rw [hd.all]; exact ne_of_gt hm
+    obtain ⟨ρ, h1, ⟨r, hr', hρ⟩, _⟩ := C03.ratio_overall_spec hv hf ho
+    obtain ⟨g1, ho1, hv1⟩ := hd.grp r hr'
+    refine ⟨ρ, h1, ?_⟩
+    rw [hρ, hv1, hd.all]
+    obtain ⟨w1, w2⟩ := ratio_window hr hg ho1
+    exact ratio_overall_lower hr hr1 he hm w1 w2
+
+end ratio
+
+/-- **TruePositiveRateParity(ratio_bound = r, ratio_bound_slack = eps) satisfied ⇒ lower bounds on
+    equal_opportunity_ratio** on stratum `S`; `μ` = the stratum's overall TPR (`μ > 0`), every group of `S` has a
+    positive example.  between_groups: `≥ r(rμ − eps)/(μ + eps)`; to_overall: `≥ (rμ − eps)/μ`; both attained
+    (`eopp_ratio_bounds_sharp`) -/
+theorem eopp_ratio_ge_of_constraint (ev : Ev) (rows : List Row) (h : List Rat) (ratio eps : Rat) (e : String)
+    (S : Row → Bool) (hl : h.length = rows.length) (hh : Hard h) (hy : ∀ r ∈ rows, r.y = 0 ∨ r.y = 1)
+    (hne : rows.filter S ≠ [])
+    (hS : ∀ r, inE ev e r = (S r && (r.y == 1)))
+    (hcov : ∀ r ∈ rows, S r = true → ∃ r2 ∈ rows, S r2 = true ∧ r2.g = r.g ∧ r2.y = 1)
+    (hr : 0 < ratio) (hr1 : ratio ≤ 1) (he : 0 ≤ eps) (hm : 0 < mE ev rows defaultUtil h e)
+    (hg : GammaLe ev rows ratio defaultUtil h eps) :
+    (∃ ρ, named "equal_opportunity_ratio" .between 1 (toFrame S rows h) = some (.value (fin ρ)) ∧
+      ratio * (ratio * mE ev rows defaultUtil h e - eps) / (mE ev rows defaultUtil h e + eps) ≤ ρ) ∧
+    (∃ ρ, named "equal_opportunity_ratio" .toOverall 1 (toFrame S rows h) = some (.value (fin ρ)) ∧
+      (ratio * mE ev rows defaultUtil h e - eps) / mE ev rows defaultUtil h e ≤ ρ) := by
+  have hv := toFrame_valid S rows h hl hne
+  have hb := toFrame_binary S rows h hy hh
+  have hd := rate_dict ev rows h e S 1 tprSpec (fun P => tprSpec_selDat P rows h hl hh) hl hS hcov
+  have hc := rate_covers ev rows h e S 1 tprSpec (fun P => tprSpec_selDat P rows h hl hh) hl hS
+  have := ratio_ge_of_constraint (m := .tpr) hv (C03.tpr_finiteOn hb) hd hc hl (fun x hx => (hh.soft x hx).1)
+    hr hr1 he hm hg
+  simpa only [C03.equal_opportunity_ratio_def] using And.intro
+    (this.1.imp fun ρ hρ => ⟨congrArg some hρ.1, hρ.2⟩) (this.2.imp fun ρ hρ => ⟨congrArg some hρ.1, hρ.2⟩)
+
+/-- the generated `false_positive_rate_ratio` is the MetricFrame ratio of `false_positive_rate` -/
+theorem false_positive_rate_ratio_def (meth : Method) (nsf : Nat) (frows : List (Frame.Row Dat)) :
+    generated "false_positive_rate_ratio" meth nsf frows = some (some (run .fpr .ratio meth true nsf frows)) := by
+  obtain ⟨k, b, hk, hgen⟩ := C03.generated_family ("false_positive_rate_ratio", "false_positive_rate", "ratio")
+    (by decide +kernel) .fpr (by decide +kernel) meth nsf frows
+  simp only [C03.variantSpec, Option.some.injEq, Prod.mk.injEq] at hk
+  obtain ⟨rfl, rfl⟩ := hk
+  exact hgen
+
+/-- **FalsePositiveRateParity(ratio_bound, ratio_bound_slack) satisfied ⇒ lower bounds on
+    `false_positive_rate_ratio`**; `μ` = the stratum's overall FPR -/
+theorem fpr_ratio_ge_of_constraint (ev : Ev) (rows : List Row) (h : List Rat) (ratio eps : Rat) (e : String)
+    (S : Row → Bool) (hl : h.length = rows.length) (hh : Hard h) (hy : ∀ r ∈ rows, r.y = 0 ∨ r.y = 1)
+    (hne : rows.filter S ≠ [])
+    (hS : ∀ r, inE ev e r = (S r && (r.y == 0)))
+    (hcov : ∀ r ∈ rows, S r = true → ∃ r2 ∈ rows, S r2 = true ∧ r2.g = r.g ∧ r2.y = 0)
+    (hr : 0 < ratio) (hr1 : ratio ≤ 1) (he : 0 ≤ eps) (hm : 0 < mE ev rows defaultUtil h e)
+    (hg : GammaLe ev rows ratio defaultUtil h eps) :
+    (∃ ρ, generated "false_positive_rate_ratio" .between 1 (toFrame S rows h) = some (some (.value (fin ρ))) ∧
+      ratio * (ratio * mE ev rows defaultUtil h e - eps) / (mE ev rows defaultUtil h e + eps) ≤ ρ) ∧
+    (∃ ρ, generated "false_positive_rate_ratio" .toOverall 1 (toFrame S rows h) = some (some (.value (fin ρ))) ∧
+      (ratio * mE ev rows defaultUtil h e - eps) / mE ev rows defaultUtil h e ≤ ρ) := by
+  have hv := toFrame_valid S rows h hl hne
+  have hb := toFrame_binary S rows h hy hh
+  have hd := rate_dict ev rows h e S 0 fprSpec (fun P => fprSpec_selDat P rows h hl hh) hl hS hcov
+  have hc := rate_covers ev rows h e S 0 fprSpec (fun P => fprSpec_selDat P rows h hl hh) hl hS
+  have := ratio_ge_of_constraint (m := .fpr) hv (C03.fpr_finiteOn hb) hd hc hl (fun x hx => (hh.soft x hx).1)
+    hr hr1 he hm hg
+  simpa only [false_positive_rate_ratio_def] using And.intro
+    (this.1.imp fun ρ hρ => ⟨congrArg (some ∘ some) hρ.1, hρ.2⟩) (this.2.imp fun ρ hρ => ⟨congrArg (some ∘ some) hρ.1, hρ.2⟩)
+
+/-- **EqualizedOdds(ratio_bound = r, ratio_bound_slack = eps) satisfied ⇒ equalized_odds_ratio (agg = worst_case)
+    is at least the SMALLER of the TPR and the FPR bound**; `μ1` / `μ0` = the stratum's overall TPR / FPR, both
+    positive; every group of `S` has both labels -/
+theorem eodds_ratio_ge_of_constraint (ev : Ev) (rows : List Row) (h : List Rat) (ratio eps : Rat) (e1 e0 : String)
+    (S : Row → Bool) (hl : h.length = rows.length) (hh : Hard h) (hy : ∀ r ∈ rows, r.y = 0 ∨ r.y = 1)
+    (hne : rows.filter S ≠ [])
+    (hS1 : ∀ r, inE ev e1 r = (S r && (r.y == 1))) (hS0 : ∀ r, inE ev e0 r = (S r && (r.y == 0)))
+    (hcov1 : ∀ r ∈ rows, S r = true → ∃ r2 ∈ rows, S r2 = true ∧ r2.g = r.g ∧ r2.y = 1)
+    (hcov0 : ∀ r ∈ rows, S r = true → ∃ r2 ∈ rows, S r2 = true ∧ r2.g = r.g ∧ r2.y = 0)
+    (hr : 0 < ratio) (hr1 : ratio ≤ 1) (he : 0 ≤ eps)
+    (hm1 : 0 < mE ev rows defaultUtil h e1) (hm0 : 0 < mE ev rows defaultUtil h e0)
+    (hg : GammaLe ev rows ratio defaultUtil h eps) :
+    (∃ ρ, eodds "equalized_odds_ratio" .between .worstCase 1 (toFrame S rows h) = some (.value (fin ρ)) ∧
+      min (ratio * (ratio * mE ev rows defaultUtil h e1 - eps) / (mE ev rows defaultUtil h e1 + eps))
+          (ratio * (ratio * mE ev rows defaultUtil h e0 - eps) / (mE ev rows defaultUtil h e0 + eps)) ≤ ρ) ∧
+    (∃ ρ, eodds "equalized_odds_ratio" .toOverall .worstCase 1 (toFrame S rows h) = some (.value (fin ρ)) ∧
+      min ((ratio * mE ev rows defaultUtil h e1 - eps) / mE ev rows defaultUtil h e1)
+          ((ratio * mE ev rows defaultUtil h e0 - eps) / mE ev rows defaultUtil h e0) ≤ ρ) := by
+  have hv := toFrame_valid S rows h hl hne
+  have hb := toFrame_binary S rows h hy hh
+  have hd1 := rate_dict ev rows h e1 S 1 tprSpec (fun P => tprSpec_selDat P rows h hl hh) hl hS1 hcov1
+  have hd0 := rate_dict ev rows h e0 S 0 fprSpec (fun P => fprSpec_selDat P rows h hl hh) hl hS0 hcov0
+  have hc1 := rate_covers ev rows h e1 S 1 tprSpec (fun P => tprSpec_selDat P rows h hl hh) hl hS1
+  have hc0 := rate_covers ev rows h e0 S 0 fprSpec (fun P => fprSpec_selDat P rows h hl hh) hl hS0
+  have hnn : ∀ x ∈ h, 0 ≤ x := fun x hx => (hh.soft x hx).1
+  obtain ⟨⟨ρt, ht, hte⟩, ⟨ρt', ht', hte'⟩⟩ :=
+    ratio_ge_of_constraint (m := .tpr) hv (C03.tpr_finiteOn hb) hd1 hc1 hl hnn hr hr1 he hm1 hg
+  obtain ⟨⟨ρf, hf, hfe⟩, ⟨ρf', hf', hfe'⟩⟩ :=
+    ratio_ge_of_constraint (m := .fpr) hv (C03.fpr_finiteOn hb) hd0 hc0 hl hnn hr hr1 he hm0 hg
+  constructor
+  · obtain ⟨a, b, ha, hb', he'⟩ := C03.eodds_def "equalized_odds_ratio" "ratio" "min" .ratio
+      (by decide +kernel) (by decide +kernel) .between .worstCase 1 _ hv hb
+    rw [ht] at ha; rw [hf] at hb'
+    injection ha with ha; injection hb' with hb'
+    subst ha; subst hb'
+    refine ⟨min ρt ρf, ?_, min_le_min hte hfe⟩
+    rw [he']; simp only [C03.pyFold_min_fin, Option.map_some]
+  · obtain ⟨a, b, ha, hb', he'⟩ := C03.eodds_def "equalized_odds_ratio" "ratio" "min" .ratio
+      (by decide +kernel) (by decide +kernel) .toOverall .worstCase 1 _ hv hb
+    rw [ht'] at ha; rw [hf'] at hb'
+    injection ha with ha; injection hb' with hb'
+    subst ha; subst hb'
+    refine ⟨min ρt' ρf', ?_, min_le_min hte' hfe'⟩
+    rw [he']; simp only [C03.pyFold_min_fin, Option.map_some]
+
+/-! ### (7) EqualizedOdds inside a control stratum, through the named metric
+
+The step the review left open: the event `control=c0,label=l` of the real rule `eventOf .eo` selects, among ALL
+rows (any control string, commas included; any integer label), exactly the rows of stratum `c0` with label `l` —
+`Cross.eo_event_selects_in_stratum`, from "`str(y)` of an integer contains no comma" (`Cross.toString_int_no_comma`). -/
+
+/-- **EqualizedOdds WITH control features ⇒ equalized_odds_difference bounds within stratum `c0`** -/
+theorem eo_constraint_bounds_eodds_in_stratum (rows : List Row) (h : List Rat) (eps : Rat) (c0 : String)
+    (hl : h.length = rows.length) (hh : Hard h) (hy : ∀ r ∈ rows, r.y = 0 ∨ r.y = 1)
+    (hne : rows.filter (fun r => r.c == some c0) ≠ [])
+    (hcov1 : ∀ r ∈ rows, (r.c == some c0) = true → ∃ r2 ∈ rows, (r2.c == some c0) = true ∧ r2.g = r.g ∧ r2.y = 1)
+    (hcov0 : ∀ r ∈ rows, (r.c == some c0) = true → ∃ r2 ∈ rows, (r2.c == some c0) = true ∧ r2.g = r.g ∧ r2.y = 0)
+    (hg : GammaLe (eventOf .eo) rows 1 defaultUtil h eps) :
+    (∃ D, eodds "equalized_odds_difference" .toOverall .worstCase 1 (toFrame (fun r => r.c == some c0) rows h) = some (.value (fin D)) ∧
+      0 ≤ D ∧ D ≤ eps) ∧
+    (∃ D, eodds "equalized_odds_difference" .between .worstCase 1 (toFrame (fun r => r.c == some c0) rows h) = some (.value (fin D)) ∧
+      0 ≤ D ∧ D ≤ 2 * eps) :=
+  eodds_difference_le_of_constraint (eventOf .eo) rows h eps
+    (MomentsSrc.ctrlFormat c0 (MomentsSrc.labelEvent 1)) (MomentsSrc.ctrlFormat c0 (MomentsSrc.labelEvent 0))
+    (fun r => r.c == some c0) hl hh hy hne
+    (fun r => eo_event_selects_in_stratum r c0 1) (fun r => eo_event_selects_in_stratum r c0 0) hcov1 hcov0 hg
+
+/-- selectors of the three label-conditioned rules, with or without control features, for ALL rows -/
+theorem tpr_selects (c0 : Option String) (r : Row) :
+    inE (eventOf .tpr) (stratumEvent c0 (MomentsSrc.labelEvent 1)) r = ((r.c == c0) && (r.y == 1)) := by
+  cases c0 with
+  | none => exact tpr_inE_nocontrol r
+  | some c => exact C06.tpr_event_selects_in_stratum r c
+
+theorem fpr_selects (c0 : Option String) (r : Row) :
+    inE (eventOf .fpr) (stratumEvent c0 (MomentsSrc.labelEvent 0)) r = ((r.c == c0) && (r.y == 0)) := by
+  cases c0 with
+  | none => exact fpr_inE_nocontrol r
+  | some c => exact C06.fpr_event_selects_in_stratum r c
+
+theorem eo_selects (c0 : Option String) (lab : Int) (hlab : lab = 0 ∨ lab = 1) (r : Row) :
+    inE (eventOf .eo) (stratumEvent c0 (MomentsSrc.labelEvent lab)) r = ((r.c == c0) && (r.y == lab)) := by
+  cases c0 with
+  | none => exact eo_inE_nocontrol r lab hlab
+  | some c => exact eo_event_selects_in_stratum r c lab
+
+/-- **the real rules, ratio form** (`c0 = none`: no control features; `some c`: inside stratum `c`):
+    TruePositiveRateParity ⇒ equal_opportunity_ratio, EqualizedOdds ⇒ equalized_odds_ratio -/
+theorem tpr_ratio_constraint_bounds_eopp (rows : List Row) (h : List Rat) (ratio eps : Rat) (c0 : Option String)
+    (hl : h.length = rows.length) (hh : Hard h) (hy : ∀ r ∈ rows, r.y = 0 ∨ r.y = 1)
+    (hne : rows.filter (fun r => r.c == c0) ≠ [])
+    (hcov : ∀ r ∈ rows, (r.c == c0) = true → ∃ r2 ∈ rows, (r2.c == c0) = true ∧ r2.g = r.g ∧ r2.y = 1)
+    (hr : 0 < ratio) (hr1 : ratio ≤ 1) (he : 0 ≤ eps)
+    (hm : 0 < mE (eventOf .tpr) rows defaultUtil h (stratumEvent c0 (MomentsSrc.labelEvent 1)))
+    (hg : GammaLe (eventOf .tpr) rows ratio defaultUtil h eps) :
+    (∃ ρ, named "equal_opportunity_ratio" .between 1 (toFrame (fun r => r.c == c0) rows h) = some (.value (fin ρ)) ∧
+      ratio * (ratio * mE (eventOf .tpr) rows defaultUtil h (stratumEvent c0 (MomentsSrc.labelEvent 1)) - eps)
+        / (mE (eventOf .tpr) rows defaultUtil h (stratumEvent c0 (MomentsSrc.labelEvent 1)) + eps) ≤ ρ) ∧
+    (∃ ρ, named "equal_opportunity_ratio" .toOverall 1 (toFrame (fun r => r.c == c0) rows h) = some (.value (fin ρ)) ∧
+      (ratio * mE (eventOf .tpr) rows defaultUtil h (stratumEvent c0 (MomentsSrc.labelEvent 1)) - eps)
+        / mE (eventOf .tpr) rows defaultUtil h (stratumEvent c0 (MomentsSrc.labelEvent 1)) ≤ ρ) :=
+  eopp_ratio_ge_of_constraint (eventOf .tpr) rows h ratio eps _ (fun r => r.c == c0) hl hh hy hne
+    (tpr_selects c0) hcov hr hr1 he hm hg
+
+theorem eo_ratio_constraint_bounds_eodds (rows : List Row) (h : List Rat) (ratio eps : Rat) (c0 : Option String)
+    (hl : h.length = rows.length) (hh : Hard h) (hy : ∀ r ∈ rows, r.y = 0 ∨ r.y = 1)
+    (hne : rows.filter (fun r => r.c == c0) ≠ [])
+    (hcov1 : ∀ r ∈ rows, (r.c == c0) = true → ∃ r2 ∈ rows, (r2.c == c0) = true ∧ r2.g = r.g ∧ r2.y = 1)
+    (hcov0 : ∀ r ∈ rows, (r.c == c0) = true → ∃ r2 ∈ rows, (r2.c == c0) = true ∧ r2.g = r.g ∧ r2.y = 0)
+    (hr : 0 < ratio) (hr1 : ratio ≤ 1) (he : 0 ≤ eps)
+    (hm1 : 0 < mE (eventOf .eo) rows defaultUtil h (stratumEvent c0 (MomentsSrc.labelEvent 1)))
+    (hm0 : 0 < mE (eventOf .eo) rows defaultUtil h (stratumEvent c0 (MomentsSrc.labelEvent 0)))
+    (hg : GammaLe (eventOf .eo) rows ratio defaultUtil h eps) :
+    (∃ ρ, eodds "equalized_odds_ratio" .between .worstCase 1 (toFrame (fun r => r.c == c0) rows h) = some (.value (fin ρ)) ∧
+      min (ratio * (ratio * mE (eventOf .eo) rows defaultUtil h (stratumEvent c0 (MomentsSrc.labelEvent 1)) - eps)
+            / (mE (eventOf .eo) rows defaultUtil h (stratumEvent c0 (MomentsSrc.labelEvent 1)) + eps))
+          (ratio * (ratio * mE (eventOf .eo) rows defaultUtil h (stratumEvent c0 (MomentsSrc.labelEvent 0)) - eps)
+            / (mE (eventOf .eo) rows defaultUtil h (stratumEvent c0 (MomentsSrc.labelEvent 0)) + eps)) ≤ ρ) ∧
+    (∃ ρ, eodds "equalized_odds_ratio" .toOverall .worstCase 1 (toFrame (fun r => r.c == c0) rows h) = some (.value (fin ρ)) ∧
+      min ((ratio * mE (eventOf .eo) rows defaultUtil h (stratumEvent c0 (MomentsSrc.labelEvent 1)) - eps)
+            / mE (eventOf .eo) rows defaultUtil h (stratumEvent c0 (MomentsSrc.labelEvent 1)))
+          ((ratio * mE (eventOf .eo) rows defaultUtil h (stratumEvent c0 (MomentsSrc.labelEvent 0)) - eps)
+            / mE (eventOf .eo) rows defaultUtil h (stratumEvent c0 (MomentsSrc.labelEvent 0))) ≤ ρ) :=
+  eodds_ratio_ge_of_constraint (eventOf .eo) rows h ratio eps _ _ (fun r => r.c == c0) hl hh hy hne
+    (eo_selects c0 1 (Or.inr rfl)) (eo_selects c0 0 (Or.inl rfl)) hcov1 hcov0 hr hr1 he hm1 hm0 hg
+
+/-! ### non-vacuity and sharpness of the L3 theorems -/
+
+/-- ErrorRateParity: error rates a = 1/4, b = 3/4, overall 1/2 — slack exactly 1/4; both constants are attained
+    (to_overall difference 1/4 = eps, between_groups 1/2 = 2·eps) -/
+def xHe : List Rat := [1, 0, 1, 1, 0, 1, 0, 0]
+
+example : Hard xHe ∧ xHe.length = xRows.length ∧ (∀ r ∈ xRows, r.y = 0 ∨ r.y = 1) := by decide +kernel
+example : GammaLe (eventOf .erp) xRows 1 erpUtil xHe (1/4) ∧ ¬ GammaLe (eventOf .erp) xRows 1 erpUtil xHe (1/5) := by
+  decide +kernel
+theorem erp_constants_attained :
+    generated "accuracy_score_difference" .toOverall 1 (toFrame (fun r => r.c == none) xRows xHe) = some (some (.value (fin (1/4)))) ∧
+    generated "accuracy_score_difference" .between 1 (toFrame (fun r => r.c == none) xRows xHe) = some (some (.value (fin (2 * (1/4))))) ∧
+    generated "zero_one_loss_difference" .between 1 (toFrame (fun r => r.c == none) xRows xHe) = some (some (.value (fin (2 * (1/4))))) := by
+  decide +kernel
+/-- every hypothesis of `erp_constraint_bounds` at once -/
+example : ∃ D, generated "accuracy_score_difference" .toOverall 1 (toFrame (fun r => r.c == none) xRows xHe) = some (some (.value (fin D))) ∧
+      0 ≤ D ∧ D ≤ 1/4 :=
+  (erp_constraint_bounds xRows xHe (1/4) none (by decide) (by decide +kernel) (by decide +kernel) (by decide +kernel)
+    (by decide +kernel)).1.1
+/-- ErrorRateParity inside a control stratum (two strata; the constraint is per stratum) -/
+def xRowsE : List Row :=
+  [⟨1, "a", some "x"⟩, ⟨0, "a", some "x"⟩, ⟨1, "b", some "x"⟩, ⟨0, "b", some "x"⟩,
+   ⟨1, "a", some "y"⟩, ⟨0, "b", some "y"⟩]
+example : ∃ D, generated "zero_one_loss_difference" .between 1 (toFrame (fun r => r.c == some "x") xRowsE [1, 0, 0, 0, 1, 0]) = some (some (.value (fin D))) ∧
+      0 ≤ D ∧ D ≤ 2 * (1/4) :=
+  (erp_constraint_bounds xRowsE [1, 0, 0, 0, 1, 0] (1/4) (some "x") (by decide) (by decide +kernel) (by decide +kernel)
+    (by decide +kernel) (by decide +kernel)).2.2
+example : generated "zero_one_loss_difference" .between 1 (toFrame (fun r => r.c == some "x") xRowsE [1, 0, 0, 0, 1, 0])
+    = some (some (.value (fin (1/2)))) := by decide +kernel
+
+/-- ratio bounds, `r = 1/2`, `eps = 0`: positives of group a at rate 1/4 (4 rows), of b at rate 1 (2 rows), overall
+    `μ = 1/2`; the negatives follow the same pattern.  `r·(r·μ − eps)/(μ + eps) = 1/4`, `(r·μ − eps)/μ = 1/2` -/
+def xRowsR : List Row :=
+  [⟨1, "a", none⟩, ⟨1, "a", none⟩, ⟨1, "a", none⟩, ⟨1, "a", none⟩, ⟨1, "b", none⟩, ⟨1, "b", none⟩,
+   ⟨0, "a", none⟩, ⟨0, "a", none⟩, ⟨0, "a", none⟩, ⟨0, "a", none⟩, ⟨0, "b", none⟩, ⟨0, "b", none⟩]
+def xHR : List Rat := [1, 0, 0, 0, 1, 1, 1, 0, 0, 0, 1, 1]
+
+/-- **both TPR ratio constants are attained**, with `r < 1`: `eopp_ratio_ge_of_constraint` cannot be improved -/
+theorem eopp_ratio_bounds_sharp :
+    GammaLe (eventOf .tpr) xRowsR (1/2) defaultUtil xHR 0 ∧ mE (eventOf .tpr) xRowsR defaultUtil xHR "label=1" = 1/2 ∧
+    named "equal_opportunity_ratio" .between 1 (toFrame (fun r => r.c == none) xRowsR xHR)
+      = some (.value (fin ((1/2) * ((1/2) * (1/2) - 0) / (1/2 + 0)))) ∧
+    named "equal_opportunity_ratio" .toOverall 1 (toFrame (fun r => r.c == none) xRowsR xHR)
+      = some (.value (fin (((1/2) * (1/2) - 0) / (1/2)))) := by
+  decide +kernel
+
+theorem fpr_ratio_bounds_sharp :
+    GammaLe (eventOf .fpr) xRowsR (1/2) defaultUtil xHR 0 ∧ mE (eventOf .fpr) xRowsR defaultUtil xHR "label=0" = 1/2 ∧
+    generated "false_positive_rate_ratio" .between 1 (toFrame (fun r => r.c == none) xRowsR xHR)
+      = some (some (.value (fin ((1/2) * ((1/2) * (1/2) - 0) / (1/2 + 0))))) ∧
+    generated "false_positive_rate_ratio" .toOverall 1 (toFrame (fun r => r.c == none) xRowsR xHR)
+      = some (some (.value (fin (((1/2) * (1/2) - 0) / (1/2))))) := by
+  decide +kernel
+
+theorem eodds_ratio_bounds_sharp :
+    GammaLe (eventOf .eo) xRowsR (1/2) defaultUtil xHR 0 ∧
+    mE (eventOf .eo) xRowsR defaultUtil xHR "label=1" = 1/2 ∧ mE (eventOf .eo) xRowsR defaultUtil xHR "label=0" = 1/2 ∧
+    eodds "equalized_odds_ratio" .between .worstCase 1 (toFrame (fun r => r.c == none) xRowsR xHR)
+      = some (.value (fin (min ((1/2) * ((1/2) * (1/2) - 0) / (1/2 + 0)) ((1/2) * ((1/2) * (1/2) - 0) / (1/2 + 0))))) ∧
+    eodds "equalized_odds_ratio" .toOverall .worstCase 1 (toFrame (fun r => r.c == none) xRowsR xHR)
+      = some (.value (fin (min (((1/2) * (1/2) - 0) / (1/2)) (((1/2) * (1/2) - 0) / (1/2))))) := by
+  decide +kernel
+
+/-- … and with `r = 1`, `eps = 1/4` (group rates 1/4 and 3/4 around 1/2): between 1/3, to_overall 1/2 -/
+def xRowsQ : List Row :=
+  [⟨1, "a", none⟩, ⟨1, "a", none⟩, ⟨1, "a", none⟩, ⟨1, "a", none⟩, ⟨1, "b", none⟩, ⟨1, "b", none⟩, ⟨1, "b", none⟩, ⟨1, "b", none⟩,
+   ⟨0, "a", none⟩, ⟨0, "b", none⟩]
+def xHQ : List Rat := [1, 0, 0, 0, 1, 1, 1, 0, 0, 0]
+theorem eopp_ratio_bounds_sharp_eps :
+    GammaLe (eventOf .tpr) xRowsQ 1 defaultUtil xHQ (1/4) ∧ mE (eventOf .tpr) xRowsQ defaultUtil xHQ "label=1" = 1/2 ∧
+    named "equal_opportunity_ratio" .between 1 (toFrame (fun r => r.c == none) xRowsQ xHQ)
+      = some (.value (fin (1 * (1 * (1/2) - 1/4) / (1/2 + 1/4)))) ∧
+    named "equal_opportunity_ratio" .toOverall 1 (toFrame (fun r => r.c == none) xRowsQ xHQ)
+      = some (.value (fin ((1 * (1/2) - 1/4) / (1/2)))) := by
+  decide +kernel
+
+/-- every hypothesis of `tpr_ratio_constraint_bounds_eopp` / `eo_ratio_constraint_bounds_eodds` at once -/
+example : ∃ ρ, named "equal_opportunity_ratio" .between 1 (toFrame (fun r => r.c == none) xRowsR xHR) = some (.value (fin ρ)) ∧
+    (1/2) * ((1/2) * mE (eventOf .tpr) xRowsR defaultUtil xHR (stratumEvent none (MomentsSrc.labelEvent 1)) - 0)
+      / (mE (eventOf .tpr) xRowsR defaultUtil xHR (stratumEvent none (MomentsSrc.labelEvent 1)) + 0) ≤ ρ :=
+  (tpr_ratio_constraint_bounds_eopp xRowsR xHR (1/2) 0 none (by decide) (by decide +kernel) (by decide +kernel)
+    (by decide +kernel) (by decide +kernel) (by norm_num) (by norm_num) (le_refl _) (by decide +kernel) (by decide +kernel)).1
+example : ∃ ρ, eodds "equalized_odds_ratio" .toOverall .worstCase 1 (toFrame (fun r => r.c == none) xRowsR xHR) = some (.value (fin ρ)) :=
+  (eo_ratio_constraint_bounds_eodds xRowsR xHR (1/2) 0 none (by decide) (by decide +kernel) (by decide +kernel)
+    (by decide +kernel) (by decide +kernel) (by decide +kernel) (by norm_num) (by norm_num) (le_refl _)
+    (by decide +kernel) (by decide +kernel) (by decide +kernel)).2.imp fun _ h => h.1
+example : ∃ ρ, generated "false_positive_rate_ratio" .between 1 (toFrame (fun r => r.c == none) xRowsR xHR) = some (some (.value (fin ρ))) :=
+  (fpr_ratio_ge_of_constraint (eventOf .fpr) xRowsR xHR (1/2) 0 _ (fun r => r.c == none) (by decide) (by decide +kernel)
+    (by decide +kernel) (by decide +kernel) (fpr_selects none) (by decide +kernel) (by norm_num) (by norm_num) (le_refl _)
+    (by decide +kernel) (by decide +kernel)).1.imp fun _ h => h.1
+
+/-- EqualizedOdds inside a control stratum; the second control value contains a comma AND the text `,label=1` -/
+def xRowsS : List Row :=
+  [⟨1, "a", some "x"⟩, ⟨0, "a", some "x"⟩, ⟨1, "b", some "x"⟩, ⟨0, "b", some "x"⟩,
+   ⟨1, "a", some "x,label=1"⟩, ⟨0, "a", some "x,label=1"⟩, ⟨1, "b", some "x,label=1"⟩, ⟨0, "b", some "x,label=1"⟩]
+def xHS : List Rat := [1, 0, 0, 0, 1, 1, 1, 0]
+
+example : GammaLe (eventOf .eo) xRowsS 1 defaultUtil xHS (1/2) ∧ ¬ GammaLe (eventOf .eo) xRowsS 1 defaultUtil xHS (2/5) := by
+  decide +kernel
+example : ∃ D, eodds "equalized_odds_difference" .between .worstCase 1 (toFrame (fun r => r.c == some "x") xRowsS xHS) = some (.value (fin D)) ∧
+      0 ≤ D ∧ D ≤ 2 * (1/2) :=
+  (eo_constraint_bounds_eodds_in_stratum xRowsS xHS (1/2) "x" (by decide) (by decide +kernel) (by decide +kernel)
+    (by decide +kernel) (by decide +kernel) (by decide +kernel) (by decide +kernel)).2
+example : eodds "equalized_odds_difference" .between .worstCase 1 (toFrame (fun r => r.c == some "x") xRowsS xHS)
+      = some (.value (fin 1)) ∧
+    eodds "equalized_odds_difference" .toOverall .worstCase 1 (toFrame (fun r => r.c == some "x,label=1") xRowsS xHS)
+      = some (.value (fin (1/2))) := by decide +kernel
 
 end C06
